@@ -177,7 +177,9 @@ def run(rep, tier):
                 if l is None:
                     continue
                 cl = const_int(l)
-                if cl is not None:
+                # a chunk of a loop that runs while the delta is below a negative bound is a negative signed byte (0x80 = -128): R8 accounts for it
+                neg_loop = any(isinstance(w.test, ast.Compare) and isinstance(w.test.ops[0], (ast.Lt, ast.LtE)) for w in loops)
+                if cl is not None and not neg_loop:
                     rep.ob("R7", construct, "line-chunk:%d-signed-range" % cl, cl <= 127, expected="<= 127 (signed byte, 3.6+)", derived=cl, where=repo.where(em, node),
                            msg="%s serves versions up to %d.%d whose lnotab line byte is signed: the chunk value %d decodes as %d" % (cname, hi_[0], hi_[1], cl, cl - 256))
         # a line component that can be negative (no dropping guard) must be reduced
@@ -232,7 +234,7 @@ def run(rep, tier):
         cq = "%s.%s" % (mod, cname)
         eq = repo.method(cq, "encode_lineno_tab")
         em, efn = repo.functions[eq]
-        nseg += conservation_rule(rep, T, mod, cname, "%s (encoder of %s)" % (eq, cname), repo.where(em, efn))
+        nseg += conservation_rule(rep, T, mod, cname, "%s (encoder of %s)" % (eq, cname), repo.where(em, efn), signed_lines=SERVES[cname][1] >= (3, 6))
     rep.floor("conservation checks (segments and loop iterations)", nseg, 12)
     freeze_discipline(rep, repo, "R9")
     rep.assumptions = ["the class -> served-versions table SERVES in rules/c19.py mirrors codeType2Portable's selection (decided by C01/C16)",
@@ -289,9 +291,28 @@ def _pieces(term, base):
     raise Unparsed("accumulator %r is not %r plus appended pieces" % (term, base))
 
 
-def _sums(items):
+def _signed(x):
+    """value of a line byte read as a signed byte (3.6+ lnotab): constants >= 128 wrap; `v & 0xFF` stands for v (|v| <= 128 after the chunk loops)"""
+    from ..sve import Op
+    if isinstance(x, int) and not isinstance(x, bool):
+        return x - 256 if x >= 128 else x
+    if isinstance(x, Op) and x.op == "bits" and x.args[1] == 0 and x.args[2] == 8:
+        return x.args[0]
+    return x
+
+
+def _sums(items, signed_lines=False):
     """(sum of even-position bytes, sum of odd-position bytes) as terms"""
     from ..sve import add, mul
+    if signed_lines:
+        conv, pos_ = [], 0
+        for it in items:
+            if isinstance(it, tuple) and it and it[0] == "rep":
+                conv.append(("rep", [(_signed(x) if (pos_ + i) % 2 else x) for i, x in enumerate(it[1])], it[2]))
+            else:
+                conv.append(_signed(it) if pos_ % 2 else it)
+                pos_ += 1
+        items = conv
     tot = [0, 0]
     pos = 0
     for it in items:
@@ -345,7 +366,7 @@ def _zero(t):
     return (isinstance(t, int) and not isinstance(t, bool) and t == 0) or repr(t) == "0"
 
 
-def conservation_rule(rep, T, mod, cname, construct, where):
+def conservation_rule(rep, T, mod, cname, construct, where, signed_lines=False):
     """R8.  Per table entry the address bytes emitted add up to the advance of the previous-offset tracker and the line bytes to
     the advance of the previous-line tracker.  Decided as an invariant: emitted + residual is unchanged by every straight-line
     segment and by one iteration of every chunking loop (terms from the specialiser's one-iteration summaries)."""
@@ -410,7 +431,7 @@ def conservation_rule(rep, T, mod, cname, construct, where):
         try:
             for si, (b, e_end_raw, acc_end, ls) in enumerate(segs):
                 for cond, term in _cases(acc_end):
-                    sa, sl = _sums(_pieces(term, b))
+                    sa, sl = _sums(_pieces(term, b), signed_lines)
                     nchecks += 1
                     e_end = {n: _resolve(v, cond) for n, v in e_end_raw.items() if isinstance(n, str)}
                     cdesc = (" when " + " and ".join(_notag(show(c)) if not isinstance(c, tuple) else "not(%s)" % _notag(show(c[1])) for c in cond)) if cond else ""
@@ -456,7 +477,7 @@ def conservation_rule(rep, T, mod, cname, construct, where):
                         if not isinstance(l2, (Fall, Cont)):
                             continue
                         for cond, term in _cases(l2.env[acc]):
-                            sa, sl = _sums(_pieces(term, hb))
+                            sa, sl = _sums(_pieces(term, hb), signed_lines)
                             nchecks += 1
                             ha = Sym("%s:%s" % (ls.tag, ra)) if _modified(ls, ra) else ls.pre.get(ra)
                             hl = Sym("%s:%s" % (ls.tag, rl)) if _modified(ls, rl) else ls.pre.get(rl)
@@ -471,6 +492,32 @@ def conservation_rule(rep, T, mod, cname, construct, where):
             pass
         except Unparsed as ex:
             raise AnalysisError("%s: emission idiom outside the supported subset: %s" % (construct, ex))
+    # a line byte written as `v & 0xFF` stands for v only inside the signed-byte range: the exit tests of the chunking loops must establish it
+    if signed_lines:
+        from ..sve import Lin
+        uses_mask = False
+        for g, l in lv:
+            for n_, v_ in l.env.items():
+                if isinstance(n_, str) and "bits(" in show(v_) and ", 0, 8)" in show(v_) and "concat" in show(v_):
+                    uses_mask = True
+        if uses_mask:
+            ub, lb = None, None
+            for ls in inner:
+                c = ls.cond
+                if isinstance(c, Op) and c.op in ("GtE", "Gt", "Lt", "LtE") and isinstance(c.args[1], int) and isinstance(c.args[0], Sym):
+                    k_ = c.args[1]
+                    if c.op == "GtE":
+                        ub = k_ - 1 if ub is None else min(ub, k_ - 1)
+                    elif c.op == "Gt":
+                        ub = k_ if ub is None else min(ub, k_)
+                    elif c.op == "Lt":
+                        lb = k_ if lb is None else max(lb, k_)
+                    elif c.op == "LtE":
+                        lb = k_ + 1 if lb is None else max(lb, k_ + 1)
+            okr = ub is not None and ub <= 127 and lb is not None and lb >= -128
+            nchecks += 1
+            if not okr:
+                problems.append(("line", "final pair", "the line byte is written as v & 0xFF but the chunking loops only establish %s <= v <= %s; a signed byte holds -128..127" % (lb, ub)))
     seen = set()
     for kind, pth, what in problems:
         key = _notag("conservation:%s:%s" % (kind, pth))
